@@ -121,6 +121,14 @@ pub fn written_top_keys(spec: &RuleSpec) -> BTreeSet<String> {
     out
 }
 
+/// recorded finding: the loader splits a key at blanks and re-joins it with single blanks, so a
+/// key written with a run of blanks is looked up with one blank
+fn collapsed_blank_variant(key: &str, written: &BTreeSet<String>, all: &BTreeSet<String>) -> bool {
+    let collapse = |k: &str| k.split_whitespace().collect::<Vec<_>>().join(" ");
+    written.iter().chain(all.iter()).any(|w| w != key && collapse(w) == key)
+}
+const BLANKS_SIG: &str = "run-of-blanks-in-a-key-is-collapsed-before-the-lookup";
+
 /// names the rule writes: (top-level first segments, every segment at any level)
 pub fn rule_names(spec: &RuleSpec) -> (BTreeSet<String>, BTreeSet<String>) {
     let mut top = BTreeSet::new();
@@ -255,11 +263,15 @@ fn check_spec(spec: &RuleSpec, level: u8, doc_cap: usize) -> Stats {
                 let ok = if *depth == 0 { top.contains(key) } else { all.contains(key) };
                 if synthetic || !ok {
                     st.push_violation(Violation {
-                        signature: format!(
-                            "{}-asked:{}",
-                            if synthetic { "synthetic-key" } else { "key-not-written-in-the-rule" },
-                            if *depth == 0 { "top-level" } else { "nested-object" }
-                        ),
+                        signature: if !synthetic && collapsed_blank_variant(key, &written, &all) {
+                            BLANKS_SIG.to_string()
+                        } else {
+                            format!(
+                                "{}-asked:{}",
+                                if synthetic { "synthetic-key" } else { "key-not-written-in-the-rule" },
+                                if *depth == 0 { "top-level" } else { "nested-object" }
+                            )
+                        },
                         witness: format!(
                             "find({:?}) at depth {} after optimise({}) ; rule {} doc {}",
                             key,
@@ -289,7 +301,7 @@ fn check_spec(spec: &RuleSpec, level: u8, doc_cap: usize) -> Stats {
                 st.count("document_find_calls_recorded", 1);
                 if !written.contains(key) {
                     st.push_violation(Violation {
-                        signature: "document-asked-for-a-key-string-the-rule-never-writes".into(),
+                        signature: if collapsed_blank_variant(key, &written, &all) { BLANKS_SIG.to_string() } else { "document-asked-for-a-key-string-the-rule-never-writes".into() },
                         witness: format!("Document::find({:?}) after optimise({}) ; rule {} doc {}", key, eng::sw_name(sw), one_line(&yaml), d.show()),
                         replay: json!({"kind":"optimise","rule_yaml":yaml,"sw_bits":sw,"hash_order_choices":[],"document":crate::report::mobj_to_json(d)}),
                     });
@@ -338,6 +350,18 @@ pub fn run(tier: Tier) -> i32 {
     } else {
         gen::universe_quick()
     };
+    // keys that are written with a blank, a '#', or non-ASCII text must reach the document verbatim
+    let mut specs = specs;
+    {
+        use crate::gen::{e, int, list, map, st};
+        for k in ["f g", "process name", "f  g", "é f", "#text", "f#g", "a-b", "a b.c d"] {
+            specs.push(RuleSpec::one(Body::Map(vec![e(k, st("a"))])));
+            specs.push(RuleSpec::one(Body::Map(vec![e(&format!("str({})", k), st("1")), e("g", st("x"))])));
+            specs.push(RuleSpec::one(Body::Map(vec![e(&format!("all({})", k), list(vec![st("a*"), st("*b")]))])));
+            specs.push(RuleSpec::one(Body::Map(vec![e("n", map(vec![e(k, st("a"))]))])));
+            specs.push(RuleSpec::one(Body::Seq(vec![vec![e(k, st("a")), e("g", st("x"))], vec![e(k, st("b"))], vec![e("g", int(1))]])));
+        }
+    }
     let doc_cap = if th { 300 } else { 100 };
     let parts: Vec<Stats> = specs.par_iter().map(|sp| check_spec(sp, 1, doc_cap)).collect();
     for p in parts {
